@@ -329,8 +329,9 @@ class Resample(Exception):
 class Point:
     """One sample point: lazily assigns values to atoms, exp-monomials and opaque nodes."""
 
-    def __init__(self, seed, pins=None):
+    def __init__(self, seed, pins=None, mask_hook=None):
         self.rng = random.Random(seed)
+        self.mask_hook = mask_hook
         self.atomv: dict = {}
         self.expbase: dict = {}
         self.memo: dict = {}
@@ -471,6 +472,10 @@ class Point:
         raise AnalysisError(f'cannot evaluate node {op}')
 
     def mask_value(self, x):
+        if self.mask_hook is not None:
+            r = self.mask_hook(x, self)
+            if r is not None:
+                return (int(bool(r)), 0)
         # decide the comparison with the Legendre character as the sign of (a - b)
         a = memo_get(self, x.args[0]); b = memo_get(self, x.args[1])
         if a[1] != 0 or b[1] != 0:
@@ -572,6 +577,10 @@ class Point:
             if op == 'div': return a[0] / a[1]
             if op == 'powi': return a[0] ** x.val
             if op == 'cmp':
+                if self.mask_hook is not None:
+                    r = self.mask_hook(x, None)
+                    if r is not None:
+                        return complex(int(bool(r)))
                 d = (a[0] - a[1]).real
                 return complex({'<': d < 0, '<=': d <= 0, '>': d > 0, '>=': d >= 0, '==': d == 0, '!=': d != 0}[x.val])
             if op == 'fn':
@@ -607,7 +616,7 @@ def memo_get(pt, n):
 class Decider:
     """Decides E == 0 at K sample points; `positive` = nodes that must sample as quadratic residues."""
 
-    def __init__(self, seed=0, k=3, positive=(), pins=None, nonzero=()):
+    def __init__(self, seed=0, k=3, positive=(), pins=None, nonzero=(), mask_hook=None):
         self.seed = seed; self.k = k; self.positive = list(positive); self.pins = pins or {}
         self.nonzero = list(nonzero)
         self.points: list[Point] = []
@@ -616,7 +625,7 @@ class Decider:
             tries += 1
             if tries > 4000 + 200 * k:
                 raise AnalysisError('could not draw a sample point meeting the positivity declarations')
-            pt = Point(seed * 1000003 + tries, pins=self.pins)
+            pt = Point(seed * 1000003 + tries, pins=self.pins, mask_hook=mask_hook)
             try:
                 ok = True
                 for pn in self.positive:
